@@ -43,7 +43,8 @@ class ScopeLifeDriver:
             silent = self.nd >= 3 and i == 2
             self.disps.append(Disp(w, f"d{i}", yields=[] if silent else [("B", i)], enter=en, exit=ex,
                                    shape="none" if silent else ("auto" if i % 2 else "list"),
-                                   spawns="c1" if i == 1 and init.get("esp") else None))
+                                   spawns="c1" if i == 1 and init.get("esp") else None,
+                                   base=(i % 2 == 0)))    # even-numbered disposables fail with a BaseException
         w.start("1")
         w.do("1", "sscope", 100, [("A", 1)], None)
         w.do("1", "try")
